@@ -78,6 +78,7 @@ type outcome struct {
 	detail  string
 	seen    []string
 	res     string
+	atts    []any
 }
 
 func seenOf(k *kindDef) []string {
@@ -90,23 +91,24 @@ func seenOf(k *kindDef) []string {
 	return fs
 }
 
-func compare(k *kindDef, a, b *item) (differs bool, da, db []byte, err error) {
+func compare(k *kindDef, a, b *item) (r *pairResult, err error) {
 	err2, _ := drv.Recover(func() error {
 		var e error
 		if k.pair != nil {
-			da, db, differs, e = k.pair(a, b)
+			r, e = k.pair(a, b)
 			return e
 		}
-		if da, e = k.digest(a); e != nil {
+		r = &pairResult{}
+		if r.da, e = k.digest(a); e != nil {
 			return fmt.Errorf("digest of base item: %w", e)
 		}
-		if db, e = k.digest(b); e != nil {
+		if r.db, e = k.digest(b); e != nil {
 			return fmt.Errorf("digest of perturbed item: %w", e)
 		}
-		differs = !bytes.Equal(da, db)
+		r.differs = !bytes.Equal(r.da, r.db)
 		return nil
 	})
-	return differs, da, db, err2
+	return r, err2
 }
 
 // compareAll evaluates every candidate pair; the obligation's digests differ iff they differ for every candidate.
@@ -114,18 +116,19 @@ func compare(k *kindDef, a, b *item) (differs bool, da, db []byte, err error) {
 func compareAll(k *kindDef, cs []cand, o *outcome) {
 	o.differs = true
 	for i, c := range cs {
-		d, da, db, err := compare(k, c.a, c.b)
+		r, err := compare(k, c.a, c.b)
 		if err != nil {
 			o.res = "err:" + err.Error()
 			o.differs = false
 			return
 		}
-		if i == 0 || (!d && o.differs) {
-			o.baseHex, o.pertHex, o.detail = short(da), short(db), c.note
+		if i == 0 || (!r.differs && o.differs) {
+			o.baseHex, o.pertHex, o.detail = short(r.da), short(r.db), c.note
 		}
-		if !d {
+		if !r.differs {
 			o.differs = false
 		}
+		o.atts = append(o.atts, r.atts...)
 	}
 	if len(cs) == 0 {
 		o.res = "err:no candidate pair"
@@ -134,7 +137,7 @@ func compareAll(k *kindDef, cs []cand, o *outcome) {
 }
 
 func runCheck(kinds map[string]*kindDef, a checkArgs) outcome {
-	o := outcome{seen: []string{}, res: "ok"}
+	o := outcome{seen: []string{}, res: "ok", atts: []any{}}
 	fields := append([]string{}, a.Fields...)
 	sort.Strings(fields)
 	if a.Mode == "cross" {
@@ -188,7 +191,13 @@ func runCheck(kinds map[string]*kindDef, a checkArgs) outcome {
 		}
 		compareAll(k, mk(), &o)
 	default:
-		o.res = "err:unknown mode " + a.Mode
+		// value classes of one field
+		mk, ok := k.class[a.Mode][strings.Join(fields, ",")]
+		if !ok {
+			o.res = "err:no pairs for mode " + a.Mode + " of " + strings.Join(fields, ",")
+			return o
+		}
+		compareAll(k, mk(), &o)
 	}
 	return o
 }
@@ -216,7 +225,7 @@ func TestDriveSignBinding(t *testing.T) {
 				sort.Strings(a.Fields)
 				o := runCheck(kinds, a)
 				em.Emit(map[string]any{"h": h.H, "i": i + 1, "act": "Check", "args": a, "res": o.res, "differs": o.differs,
-					"base_hex": o.baseHex, "pert_hex": o.pertHex, "fields_seen": o.seen, "detail": o.detail})
+					"base_hex": o.baseHex, "pert_hex": o.pertHex, "fields_seen": o.seen, "detail": o.detail, "atts": o.atts})
 			case "Survey":
 				var a surveyArgs
 				if err := json.Unmarshal(st.Args, &a); err != nil {
